@@ -23,17 +23,18 @@ import RuxModel.Model.Chain
           x<c> AbortWithStatus(c, msg), i<t> record IsAborted(), c<c> SetStatus(c), w<t> write chunk t,
           b<t> marker t; the real handler additionally swaps c.Resp for a transparent buffering writer until it returns
           R Next() called by a recovery middleware (defer/recover around it); nothing panics in these chains, so it is `n`
+          W<t> / Y<t> the chunk written through io.WriteString(c.Resp, ..) / io.Copy(c.Resp, strings.NewReader(..)):
+          for the model a write like `w<t>`
+          d    c.Router().HandleContext(c) from inside the handler: the context is dispatched again (same request, so the
+               same chain: Reset, chain from the start, header commit), then the handler goes on. Only the first `d` of a
+               request re-dispatches (events D<h> … C<h>), a later one does nothing (event X<h>). Interpreted by
+               `xNext` below (the cursor semantics of Model/Chain with the re-entry added); chains without `d` go through
+               the model functions the theorems talk about, as before. `d` together with `b` is answered `unsupported`.
   <trace>: comma separated: E<h> L<h> M<h>.<t> P<h>.<t>.<0|1> A<h> S<h>.<c> W<h>.<t>
 -/
 namespace Rux.Drv.ChainE
 open Rux.Drv
 open Rux.Chain
-
-structure ChainSt where
-  g : List Handler := []
-  p : List Handler := []
-  r : List Handler := []
-  m : Option Handler := none
 
 def parseAct (s : String) : Option Act :=
   match s.toList with
@@ -52,11 +53,39 @@ def parseAct (s : String) : Option Act :=
       else if c = 'i' then some (.isAborted k)
       else if c = 'c' then some (.setStatus k)
       else if c = 'w' then some (.write k)
+      else if c = 'W' then some (.write k)  -- io.WriteString(c.Resp, chunk)
+      else if c = 'Y' then some (.write k)  -- io.Copy(c.Resp, strings.NewReader(chunk))
       else none
   | [] => none
 
-def parseActs (s : String) : Option Handler :=
-  if s = "-" then some [] else (s.splitOn ",").mapM parseAct
+/-- an action of the protocol: an action of the model, or the re-dispatch `d` -/
+inductive XAct
+  | base (a : Act)
+  | redis
+
+abbrev XHandler := List XAct
+
+def parseXAct (s : String) : Option XAct :=
+  if s = "d" then some .redis else (parseAct s).map .base
+
+def parseActs (s : String) : Option XHandler :=
+  if s = "-" then some [] else (s.splitOn ",").mapM parseXAct
+
+/-- the handler as the model's action list, when it does not re-dispatch -/
+def toBase : XHandler → Option Handler
+  | [] => some []
+  | .base a :: rest => (toBase rest).map (a :: ·)
+  | .redis :: _ => none
+
+/-- the handler token contains the buffering-wrapper marker `b<t>` -/
+def hasWrap (s : String) : Bool := (s.splitOn ",").any (·.startsWith "b")
+
+structure ChainSt where
+  g : List XHandler := []
+  p : List XHandler := []
+  r : List XHandler := []
+  m : Option XHandler := none
+  wrap : Bool := false     -- some handler swaps c.Resp for a buffering writer (`b`)
 
 def evStr : Ev → String
   | .enter h => s!"E{h}"
@@ -70,11 +99,7 @@ def evStr : Ev → String
 def traceStr (tr : List Ev) : String :=
   if tr.isEmpty then "-" else String.intercalate "," (tr.map evStr)
 
-def chainServe (s : ChainSt) : String :=
-  match s.m with
-  | none => "no-main"
-  | some m =>
-    let hs := s.g ++ s.p ++ s.r ++ [m]
+def chainServeBase (hs : List Handler) : String :=
     if (hs.length : Int) ≤ abortIndex then
       match serve hs with
       | .ok st =>
@@ -83,6 +108,102 @@ def chainServe (s : ChainSt) : String :=
       | .panic => "panic:index"
       | .fuel => "hang"
     else "unsupported"
+
+/-! ### chains with a re-dispatch (`d`)
+
+  `Router.HandleContext(c)` called by handler `i` while it runs: `c.Reset()` (cursor back to -1),
+  `handleHTTPRequest` (the request is the same, so the same chain is put into the context and `Next()` runs it from
+  the start; at the end `ensureWriteHeader()` commits the header), `ctxPool.Put`. The cursor keeps the value the
+  re-entered chain left, and every `Next()` loop that is still running in the suspended handlers goes on from there.
+  The interpreter below is `Chain.next` / `Chain.runActs` (same cursor arithmetic, the effect of every other action
+  is taken from `Chain.runActs` itself) with that one step added. -/
+
+inductive XEv
+  | ev (e : Ev)
+  | start (h : Nat)    -- handler h calls HandleContext
+  | done (h : Nat)     -- … it returned (the header is committed now)
+  | skip (h : Nat)     -- a `d` that does nothing (the request has re-dispatched before)
+
+structure XSt where
+  idx : Int
+  used : Bool
+  trace : List XEv
+
+inductive XRes
+  | ok (st : XSt)
+  | panic
+  | fuel
+
+/-- an action other than `Next()` / `d`: what `Chain.runActs` does with it -/
+def xBase (i : Nat) (a : Act) (st : XSt) : XSt :=
+  match runActs (fun s => .ok s) i [a] ⟨st.idx, []⟩ with
+  | .ok s => { st with idx := s.idx, trace := st.trace ++ s.trace.map .ev }
+  | _ => st
+
+/-- the body of handler `i`; `nx` = `c.Next()`, `disp` = `handleHTTPRequest` on the context after `Reset` -/
+def xRunActs (nx disp : XSt → XRes) (i : Nat) : List XAct → XSt → XRes
+  | [], st => .ok st
+  | .base .next :: rest, st =>
+    match nx st with
+    | .ok st' => xRunActs nx disp i rest st'
+    | r => r
+  | .base a :: rest, st => xRunActs nx disp i rest (xBase i a st)
+  | .redis :: rest, st =>
+    if st.used then xRunActs nx disp i rest { st with trace := st.trace ++ [.skip i] }
+    else
+      match disp { idx := -1, used := true, trace := st.trace ++ [.start i] } with
+      | .ok st' => xRunActs nx disp i rest { st' with trace := st'.trace ++ [.done i] }
+      | r => r
+
+/-- `Context.Next()` (as `Chain.next`); one unit of fuel per loop iteration / nesting level -/
+def xNext (hs : List XHandler) : Nat → XSt → XRes
+  | 0, _ => .fuel
+  | f + 1, st =>
+    let last := wrap8 (wrap8 hs.length - 1)
+    if st.idx < last then
+      let j := wrap8 (st.idx + 1)
+      if 0 ≤ j then
+        match hs[j.toNat]? with
+        | none => .panic
+        | some h =>
+          match xRunActs (xNext hs f) (xNext hs f) j.toNat h
+                  { st with idx := j, trace := st.trace ++ [.ev (.enter j.toNat)] } with
+          | .ok st2 => xNext hs f { st2 with trace := st2.trace ++ [.ev (.leave j.toNat)] }
+          | r => r
+      else .panic
+    else .ok st
+
+def xEvStr : XEv → String
+  | .ev e => evStr e
+  | .start h => s!"D{h}"
+  | .done h => s!"C{h}"
+  | .skip h => s!"X{h}"
+
+/-- the status the client sees: as `finalStatus`, the return of a re-dispatch is a commit point -/
+def xFinalStatus (tr : List XEv) : Nat :=
+  let w : W := tr.foldl (fun w e => match e with | .ev e => W.step w e | .done _ => w.ensure | _ => w) {}
+  (w.ensure.committed).getD 0
+
+def chainServeX (hs : List XHandler) : String :=
+    if (hs.length : Int) ≤ abortIndex then
+      -- every handler starts at most twice (once per dispatch), at most two dispatches
+      match xNext hs (2 * hs.length + 4) ⟨-1, false, []⟩ with
+      | .ok st =>
+        let kind := if st.trace.any (fun e => match e with | .ev e => e.isAbort | _ => false) then "ab" else "ok"
+        let t := if st.trace.isEmpty then "-" else String.intercalate "," (st.trace.map xEvStr)
+        s!"{kind} {t} st={xFinalStatus st.trace} ;; idx={st.idx}"
+      | .panic => "panic:index"
+      | .fuel => "hang"
+    else "unsupported"
+
+def chainServe (s : ChainSt) : String :=
+  match s.m with
+  | none => "no-main"
+  | some m =>
+    let hs := s.g ++ s.p ++ s.r ++ [m]
+    match hs.mapM toBase with
+    | some b => chainServeBase b
+    | none => if s.wrap then "unsupported" else chainServeX hs
 
 def chainLim (g1 g2 pre u : Nat) : String :=
   match routeUse 0 pre with
@@ -97,10 +218,10 @@ def chainLim (g1 g2 pre u : Nat) : String :=
 
 def chainStep (s : ChainSt) : List String → ChainSt × String
   | ["new"] => ({}, "ok")
-  | ["g", a] => match parseActs a with | some h => ({ s with g := s.g ++ [h] }, "ok") | none => (s, "bad-op")
-  | ["p", a] => match parseActs a with | some h => ({ s with p := s.p ++ [h] }, "ok") | none => (s, "bad-op")
-  | ["r", a] => match parseActs a with | some h => ({ s with r := s.r ++ [h] }, "ok") | none => (s, "bad-op")
-  | ["m", a] => match parseActs a with | some h => ({ s with m := some h }, "ok") | none => (s, "bad-op")
+  | ["g", a] => match parseActs a with | some h => ({ s with g := s.g ++ [h], wrap := s.wrap || hasWrap a }, "ok") | none => (s, "bad-op")
+  | ["p", a] => match parseActs a with | some h => ({ s with p := s.p ++ [h], wrap := s.wrap || hasWrap a }, "ok") | none => (s, "bad-op")
+  | ["r", a] => match parseActs a with | some h => ({ s with r := s.r ++ [h], wrap := s.wrap || hasWrap a }, "ok") | none => (s, "bad-op")
+  | ["m", a] => match parseActs a with | some h => ({ s with m := some h, wrap := s.wrap || hasWrap a }, "ok") | none => (s, "bad-op")
   | ["serve", v] => match v.toNat? with | some _ => (s, chainServe s) | none => (s, "bad-op")
   | ["servef", v, k] =>
     match v.toNat?, k.toNat? with
